@@ -147,11 +147,20 @@ void dispatch(std::istringstream& in, std::ostream& out)
     int slot; string kind, alg; in >> slot >> kind >> alg;
     std::unique_ptr<Obj> o(new Obj);
     o->kind = kind; o->alg = alg;
+    string opt; in >> opt;      // optional: "noset" | "minx K i1..iK" (K=-1 none, K=-2 min_x())
+    Problem saved = P;
+    bool call_all = false;
+    if (opt == "minx") {
+      int k; in >> k;
+      P.minx.clear();
+      if (k == -2) { call_all = true; P.K = -1; }
+      else { P.K = k; for (int i=0; i<k; i++) { int v; in >> v; P.minx.push_back(v); } }
+    }
+    struct Restore { Problem& p; Problem& s; ~Restore() { p.K = s.K; p.minx = s.minx; } } restore{P, saved};
     if (kind == "adj") {
       o->adj.reset(new Adj);
-      string setfirst; in >> setfirst;      // optional: "noset" leaves data unset
       o->adj->set_algorithm(alg_of(alg));
-      if (setfirst != "noset") o->adj->set(make_data(P, true));
+      if (opt != "noset") o->adj->set(make_data(P, true));
     } else {
       if (alg == "envelope") o->base.reset(new AdjEnvelope<>);
       else if (alg == "gso") o->base.reset(new AdjGSO<double,int,Exception::matvec>);
@@ -163,6 +172,7 @@ void dispatch(std::istringstream& in, std::ostream& out)
         vector<int> m = P.minx; m.push_back(0);
         o->base->min_x(P.K, m.data());
       }
+      else if (call_all) o->base->min_x();
       raw_reset(*o);
     }
     objs[slot] = std::move(o);
